@@ -84,7 +84,7 @@ type vfSpec struct {
 const (
 	vfConflictFlavors = 3
 	vfUnavailFlavors  = 2 // + connection level (node down), which is a property of the node
-	vfOtherFlavors    = 3
+	vfOtherFlavors    = 6
 )
 
 func (s vfSpec) String() string { return fmt.Sprintf("%s%d", s.kind, s.flavor) }
@@ -121,8 +121,14 @@ func (s vfSpec) err() error {
 			return status.Error(codes.Internal, "boom")
 		case 1:
 			return errors.New("some other failure")
-		default:
+		case 2:
 			return status.Error(codes.ResourceExhausted, "too many")
+		case 3: // the peer (or a proxy in between) cancelled the call: a failure like any other
+			return status.Error(codes.Canceled, "context canceled")
+		case 4:
+			return status.Error(codes.DeadlineExceeded, "deadline exceeded")
+		default:
+			return status.Error(codes.Unknown, "unknown")
 		}
 	}
 }
